@@ -56,6 +56,8 @@ func c06Muts(cfg c06Cfg) []c06Mut {
 	mid := cfg.Keys[n/2]
 	m = append(m, c06Mut{"delete <=k1", "delete from %s where a<=" + cfg.Keys[1]})
 	m = append(m, c06Mut{"delete >k[n-2]", "delete from %s where a>" + cfg.Keys[n-2]})
+	// redundant bounds on one side, the inclusive one first: the row AT the constant must stay
+	m = append(m, c06Mut{"delete >=k1 and >k1", "delete from %s where a>=" + cfg.Keys[1] + " and a>" + cfg.Keys[1]})
 	m = append(m, c06Mut{"insert dup-tail", fmt.Sprintf("insert into %%s(a,b,c) values(%s,'v',%d),(%s,'v',0)", cfg.Keys[n-1], n-1, cfg.Keys[0])})
 	m = append(m, c06Mut{"insert null key", "insert into %s(a,b,c) values(NULL,'v',0)"})
 	m = append(m, c06Mut{"insert all", func() string {
@@ -72,6 +74,7 @@ func c06Muts(cfg c06Cfg) []c06Mut {
 		m = append(m, c06Mut{"updnull >=mid", "update %s set b=NULL where a>=" + mid})
 		m = append(m, c06Mut{"updv <mid", "update %s set b='v' where a<" + mid})
 		m = append(m, c06Mut{"upd7 all", "update %s set b=7"})
+		m = append(m, c06Mut{"upd7 <=mid and <mid", "update %s set b=7 where a<=" + mid + " and a<" + mid})
 	}
 	return m
 }
@@ -108,6 +111,47 @@ func c06Battery(cfg c06Cfg) []c06Query {
 					qs = append(qs, c06Query{fmt.Sprintf("select a from %%s where a%s%s and a%s%s order by a", lo, c1, hi, c2), true})
 					qs = append(qs, c06Query{fmt.Sprintf("select a from %%s where a%s%s and a%s%s order by a desc", lo, c1, hi, c2), true})
 				}
+			}
+		}
+	}
+	// two bounds on the SAME side, every combination of strictness, both orders, equal and different constants
+	sub3 := sub
+	if len(sub3) > 3 {
+		sub3 = []string{sub[0], sub[1], sub[len(sub)-1]}
+	}
+	for _, side := range [][]string{{">", ">="}, {"<", "<="}} {
+		for _, o1 := range side {
+			for _, o2 := range side {
+				for _, c1 := range sub3 {
+					for _, c2 := range sub3 {
+						qs = append(qs, c06Query{fmt.Sprintf("select a from %%s where a%s%s and a%s%s order by a", o1, c1, o2, c2), true})
+					}
+				}
+			}
+		}
+	}
+	// IN lists (one xFilter call per element on the same cursor) combined with a bound, in both orders
+	{
+		kk := cfg.Keys
+		lists := []string{kk[0] + "," + kk[len(kk)-1], kk[0] + "," + kk[len(kk)/2] + "," + kk[len(kk)-1]}
+		for _, l := range lists {
+			for _, op := range []string{"<", "<=", ">", ">="} {
+				for _, c := range sub {
+					qs = append(qs, c06Query{fmt.Sprintf("select a from %%s where a in (%s) and a%s%s order by a", l, op, c), true})
+					qs = append(qs, c06Query{fmt.Sprintf("select a from %%s where a%s%s and a in (%s) order by a", op, c, l), true})
+				}
+			}
+		}
+		// the table as the inner side of a join / in a correlated subquery, driven by a list of constants
+		var dv []string
+		for _, c := range sub {
+			dv = append(dv, "select "+c+" as a")
+		}
+		driver := strings.Join(dv, " union all ")
+		for _, op := range []string{"<", "<=", ">", ">="} {
+			for _, c := range sub {
+				qs = append(qs, c06Query{fmt.Sprintf("select d.a, t.a from (%s) d cross join %%s t on t.a=d.a where t.a%s%s order by d.a", driver, op, c), true})
+				qs = append(qs, c06Query{fmt.Sprintf("select d.a, (select count(*) from %%s t where t.a=d.a and t.a%s%s) from (%s) d order by d.a", op, c, driver), true})
 			}
 		}
 	}
